@@ -497,12 +497,36 @@ class Report:
         self.violations.append((p, what, found_input))
         return True
 
+    def _sanitize_coverage(self):
+        """Keep the evidence file valid against EVIDENCE.schema.json whatever a property's glue put in."""
+        c = self.cov
+        if "exhaustive" in c and not isinstance(c["exhaustive"], bool):
+            c["exhaustive_scope"] = str(c["exhaustive"])
+            c["exhaustive"] = bool(c["exhaustive"])
+        for k in ("evaluations", "distinct_nontrivial", "states", "transitions", "traces_validated_against_impl",
+                  "obligations", "discharged", "programs", "disagreements_checked"):
+            if k in c and not isinstance(c[k], int):
+                try:
+                    c[k] = int(c[k])
+                except (TypeError, ValueError):
+                    c[k + "_raw"] = str(c.pop(k))
+        if "samples" in c and not isinstance(c["samples"], list):
+            c["samples"] = [c["samples"]]
+        if "trusted_base" in c:
+            c["trusted_base"] = [str(x) for x in (c["trusted_base"] if isinstance(c["trusted_base"], list) else [c["trusted_base"]])]
+        if "checker_cmd" in c:
+            c["checker_cmd"] = str(c["checker_cmd"])
+        if "explanation" in c:
+            c["explanation"] = str(c["explanation"])
+        self.assumptions = [str(a) for a in self.assumptions]
+
     def finish(self):
         for k, n in sorted(self.known_hits.items()):
             print("KNOWN-FINDING: property=%s %s [class=%s, %d case(s) this run]" % (self.prop, self.known[k], k, n))
         real = [v for v in self.violations if v[0]]
         # a violation with a concrete input outranks one without
         real.sort(key=lambda v: not v[2])
+        self._sanitize_coverage()
         ev = dict(property_id=self.prop, tier=self.tier, seed=self.seed, level=self.level,
                   coverage=self.cov, assumptions=self.assumptions,
                   wall_s=round(time.time() - self.t0, 2), violations=len(self.violations))
